@@ -29,7 +29,7 @@ func VerifBuildTable(dir string, fid uint64, blockSize int, bloomFP float64, ent
 		return nil, errors.New("verif: empty entry set")
 	}
 	opt := &Options{WorkDir: dir, BlockSize: blockSize, BloomFalsePositive: bloomFP, SSTableMaxSz: 64 << 20,
-		BlockCacheSize: 16, BloomCacheSize: 16}
+		BlockCacheSize: 64, BloomCacheSize: 16}
 	lm := verifLevelManager(opt)
 	b := newTableBuiler(opt)
 	for _, e := range entries {
@@ -104,6 +104,27 @@ func (v *VerifTable) BloomMayContain(userKey []byte) (may bool, has bool) {
 		return true, false
 	}
 	return f.MayContainKey(userKey), true
+}
+
+// BlockRanges returns (offset, length) of every data block inside the table file.
+func (v *VerifTable) BlockRanges() [][2]int {
+	idx := v.t.index()
+	var out [][2]int
+	for _, o := range idx.GetOffsets() {
+		out = append(out, [2]int{int(o.GetOffset()), int(o.GetLen())})
+	}
+	return out
+}
+
+// FileName is the path of the table file.
+func (v *VerifTable) FileName() string { return v.name }
+
+// SettleCaches waits until the (asynchronous) block cache has applied every pending insert, so
+// that the next read observes what earlier reads left in the cache.
+func (v *VerifTable) SettleCaches() {
+	if c := v.lm.cache; c != nil && c.blocks != nil && c.blocks.rc != nil {
+		c.blocks.rc.Wait()
+	}
 }
 
 // KeyCount is the number of entries recorded in the index.
